@@ -32,9 +32,53 @@ def h_fixed(kind):
     return fn, types
 
 
+def h_fixed_pairs(form):
+    """Two fixed-offset zones requested one after the other through the real factory (its cache) and both kept alive: each
+    converts a UTC instant with the offset IT was requested with.  The second offset is related to the first (equal,
+    negated, exactly 24 h away, a fraction of a second away, same seconds-of-day); hours / quarter hours / relation are
+    pinned per path; real datetimes, native."""
+    import datetime
+    from dateutil import tz
+    types = dict(h=int, m=int, neg=bool, rel=int, named=bool)
+    when = datetime.datetime(2021, 3, 4, 12, 0, 0, tzinfo=tz.UTC)
+
+    def fn(ctx, h, m, neg, rel, named):
+        ctx.assume(S.within(h, 0, 23))
+        ctx.assume(S.within(m, 0, 3))
+        ctx.assume(S.within(rel, 0, 5))
+        h, m, neg, rel, named = ctx.concrete(h), ctx.concrete(m) * 15, ctx.concrete(neg), ctx.concrete(rel), ctx.concrete(named)
+        o1 = datetime.timedelta(minutes=(-1 if neg else 1) * (h * 60 + m))
+        o2 = [o1, -o1, o1 - datetime.timedelta(days=1), o1 + datetime.timedelta(days=1), o1 + datetime.timedelta(microseconds=500000),
+              o1 + datetime.timedelta(hours=1)][rel]
+        if not (datetime.timedelta(days=-1) < o2 < datetime.timedelta(days=1)):
+            ctx.assume(False)
+        if ctx.symbolic:
+            return None
+        with ctx.untraced():
+            name = "X" if named else None
+
+            def req(off):
+                if form == "int" and off.microseconds == 0:
+                    return tz.tzoffset(name, int(off.total_seconds()))
+                return tz.tzoffset(name, off)
+            alive = []
+            for off in (o1, o2, o1):
+                z = req(off)
+                alive.append((z, off))
+                for (zz, oo) in alive:
+                    w = when.astimezone(zz)
+                    ctx.check(w.utcoffset() == oo and w.replace(tzinfo=None) - when.replace(tzinfo=None) == oo,
+                              "tzoffset requested with %s converts with %s after the requests %s" % (oo, w.utcoffset(), [str(a[1]) for a in alive]),
+                              key="tzoffset-pairs:%s:offset" % form)
+                    ctx.check(w.astimezone(tz.UTC) == when, "round trip through a fixed-offset zone loses the instant", key="tzoffset-pairs:%s:roundtrip" % form)
+        return None
+    return fn, types
+
+
 def cells(tier, seed):
     q = tier == "quick"
-    cs = [Cell(MF, "h_fixed", dict(kind="tzutc"), budget_s=60), Cell(MF, "h_fixed", dict(kind="tzoffset"), budget_s=60)]
+    cs = [Cell(MF, "h_fixed", dict(kind="tzutc"), budget_s=60), Cell(MF, "h_fixed", dict(kind="tzoffset"), budget_s=60),
+          Cell(MF, "h_fixed_pairs", dict(form="int"), budget_s=120), Cell(MF, "h_fixed_pairs", dict(form="timedelta"), budget_s=120)]
     # rule zones (tzstr / tzrange / tzlocal / tzical): the clean rule specs of C08, UTC-instant mode
     from harness import c08, posixtz
     specs = [s for s in c08.specs(tier) if not (s.get("dst") and (posixtz.rule_time(s["end"]) < posixtz.dstoff(s) - s["stdoff"] or posixtz.rule_time(s["start"]) >= 86400))]
@@ -58,9 +102,11 @@ ASSUMPTIONS = [
     "overriding every operation the tz code uses), validated against real datetime on each run; float total_seconds() rounding is not modelled",
     "UTC instant symbolic over [first transition - 10**6 s, last transition + 10**6 s] of each zone file (or +-10**6 s for files without transitions)",
     "quick tier: a fixed list of awkward zones plus 8 seeded ones; thorough: every distinct TZif file under /usr/share/zoneinfo",
+    "fixed-offset pairs: two related offsets (equal / negated / 24 h apart / half a second apart / one hour apart) requested through the real factory and kept alive, pinned per path, native",
+    "sub-second instants: one microsecond before / after the transition opening each interval of every zone file, on real datetimes in the native replay",
     "rule zones: tzstr / tzrange / tzlocal (platform model) / tzical built from C08's rule specs (those without a recorded tzstr finding), instant over one year +-3 days; more rules and years in C08 / C17",
 ]
-OUTSIDE = ["sub-second instants", "Windows registry zones", "instants more than 10**6 s outside the file's transition table"]
+OUTSIDE = ["sub-second instants other than the microsecond next to each transition", "Windows registry zones", "instants more than 10**6 s outside the file's transition table"]
 
 
 def run(tier, seed, jobs):
